@@ -50,10 +50,66 @@ CONSTANTS MaxBlockTxs, MaxReorgDepth, SimProfile
 VARIABLES hist, script
 mcvars == <<chain, txpool, stempool, cache, pending, last, nsteps, hist, script>>
 
+\* ---------------- scripted scenarios: the scripts (used by the recorder below and by MCScriptSpec) ----------------
+Sub(t) == [k |-> "Submit", t |-> t, stem |-> FALSE, form |-> "commit"]
+StemSub(t) == [k |-> "Submit", t |-> t, stem |-> TRUE, form |-> "commit"]
+SubF(t, f) == [k |-> "Submit", t |-> t, stem |-> FALSE, form |-> f]
+StemSubF(t, f) == [k |-> "Submit", t |-> t, stem |-> TRUE, form |-> f]
+Blk(b) == [k |-> "Connect", b |-> b]
+Rg(d, bs) == [k |-> "Reorg", d |-> d, bs |-> bs]
+Hdr(b) == [k |-> "Header", b |-> b]
+Scripts == <<
+  \* 1: two pool parents (1 and 2), child 4 spending an output of each, capacity 2 forces an eviction
+  <<Sub({1}), Sub({2}), Sub({4}), Sub({19}), Sub({12})>>,
+  \* 2: parent 16 (high fee), child 17 (low fee, own bucket), grandchild 18, then 5: eviction
+  <<Sub({16}), Sub({17}), Sub({18}), Sub({5}), Sub({19})>>,
+  \* 3: stem tx 3 depends on pooled tx 1; pool fills; eviction of 1 must not leave 3 dangling in the stempool
+  <<Sub({1}), StemSub({3}), Sub({2}), Sub({8}), Sub({19}), StemSub({12})>>,
+  \* 4: coinbase maturity and lock height one block early / at the boundary (C13 pool clause)
+  <<Sub({9}), Sub({10}), Sub({14}), StemSub({9}), Blk({}), Sub({9}), Sub({10}), Sub({14}), Blk({9}), Sub({14}), StemSub({14}), Sub({14})>>,
+  \* 5: duplicates, aggregated forms of pooled txs, deaggregation, conflicts
+  <<Sub({1}), Sub({1}), Sub({1, 2}), Sub({2}), Sub({1, 3}), Sub({3}), Sub({5}), StemSub({5}), Sub({3, 12}), Blk({1, 2}), Sub({1}), Sub({12})>>,
+  \* 6: reorgs: a confirmed tx returns through the reorg cache; a conflicting spend on the new branch keeps it out
+  <<Sub({1}), Sub({2}), Blk({1}), Rg(1, <<{}, {}>>), Blk({2}), Rg(1, <<{16}, {}>>), Sub({3})>>,
+  \* 7: header-first propagation: the header chain is one ahead of the body chain; maturity and lock height
+  \*    stay relative to the body head
+  <<Hdr({}), Sub({9}), Sub({10}), StemSub({9}), Sub({14}), Sub({2}), Blk({}), Sub({9}), Sub({10}), Hdr({9}), Sub({14}), StemSub({14}),
+    Blk({9}), Sub({14})>>,
+  \* 8: the minimum fee is demanded of the REMAINDER that is admitted after deaggregation: an under-paying tx (6: short
+  \*    by 1; 7: short once shifted; 15: far below) submitted aggregated with a pooled well-paying tx (2, 16) is refused
+  \*    although the aggregate as a whole pays enough; as stem tx (no deaggregation) it conflicts with the pooled part
+  <<Sub({2}), Sub({6}), Sub({2, 6}), Sub({16}), Sub({16, 7}), Sub({2, 15}), StemSub({2, 6}), Sub({15})>>,
+  \* 9: output-commitment collisions with disjoint inputs and kernels, stem first: stem tx 2 must leave the stempool when
+  \*    fluff tx 20 (same output 102) enters the public pool; 2 is then refused both ways; stem chain 16 -> 17: fluff 21
+  \*    (same output 126 as 16) throws 16 out while 17 now spends the 126 of 21; block {20}
+  <<StemSub({2}), Sub({20}), Sub({2}), StemSub({2}), StemSub({16}), StemSub({17}), Sub({21}), Blk({20}), StemSub({2})>>,
+  \* 10: the same collisions, fluff first: stem 2 refused on top of public 20, and as fluff; stem 21, then fluff 16
+  \*    (same output 126) throws it out; a BLOCK holding 21 (no kernel, no input in common with the pool) throws out 16
+  <<Sub({20}), StemSub({2}), Sub({2}), StemSub({21}), Sub({16}), Blk({21}), Sub({17})>>,
+  \* 11: an output created (16), spent (17) and created AGAIN (21) inside the public pool: jointly valid once cut through
+  \*     (a block of the three is accepted), so 21 is admitted - and the set offered for mining must still assemble
+  <<Sub({16}), Sub({17}), Sub({21})>>,
+  \* 12: the same three in a pool over capacity (2): the victim must not be 17, the spender that keeps the two creators
+  \*     of output 126 apart (without it the public pool no longer aggregates)
+  <<Sub({21}), Sub({17}), Sub({16}), Sub({20})>>,
+  \* 13: declared input features that lie: the spend of an immature coinbase labelled Plain is refused with an empty and
+  \*     with a non-empty pool, as fluff and as stem; a pool output labelled Coinbase and (one block later) the now mature
+  \*     coinbase labelled Plain are admitted like their truthful forms
+  <<SubF({9}, "mislabelled"), Sub({1}), SubF({9}, "mislabelled"), StemSubF({14}, "mislabelled"), SubF({3}, "mislabelled"),
+    Blk({1}), SubF({9}, "mislabelled"), SubF({2}, "declared")>>
+>> \o (IF ShortReorg THEN <<
+  \* 14: a heavier but shorter fork lowers the height: the spend of coinbase 5 admitted at maturity is immature again
+  <<Blk({}), Blk({}), Sub({14}), Sub({10}), Rg(2, <<{}>>), Sub({19}), Blk({}), Sub({14})>> >> ELSE <<>>)
+ScriptForm == LET a == Scripts[script][nsteps + 1] IN a.form
+
 Proj == [txpool |-> txpool, stempool |-> stempool, height |-> Height]
+\* how the inputs of a submission are written on the wire (not a parameter of Pool!Submit, see there): commitments only
+\* (what the tx builder produces), with the true output features declared, or with every declared feature flipped
+Forms == <<"commit", "commit", "declared", "mislabelled", "mislabelled">>
 Step == IF last'.k = "Submit"
         THEN [k |-> "Submit", t |-> last'.t, stem |-> last'.stem, relay |-> last'.relay, res |-> last'.res,
-              why |-> last'.why, evict |-> last'.evict, pre |-> last'.pre, allowed |-> last'.allowed, proj |-> Proj']
+              why |-> last'.why, evict |-> last'.evict, pre |-> last'.pre, allowed |-> last'.allowed, proj |-> Proj',
+              form |-> IF script > 0 THEN ScriptForm ELSE Forms[RandomElement(1..Len(Forms))]]
         ELSE [k |-> last'.k, d |-> last'.d, bs |-> last'.bs, proj |-> Proj']
 Record == script' = script /\ hist' = IF last'.k \in {"Submit", "Connect", "Reorg", "Header"} THEN Append(hist, Step) ELSE hist
 
@@ -132,48 +188,6 @@ SimNext ==
 MCSimSpec == MCInit /\ [][SimNext /\ Record]_mcvars
 
 \* ---------------- scripted scenarios (deterministic replay files for the boundary cases) ----------------
-Sub(t) == [k |-> "Submit", t |-> t, stem |-> FALSE]
-StemSub(t) == [k |-> "Submit", t |-> t, stem |-> TRUE]
-Blk(b) == [k |-> "Connect", b |-> b]
-Rg(d, bs) == [k |-> "Reorg", d |-> d, bs |-> bs]
-Hdr(b) == [k |-> "Header", b |-> b]
-Scripts == <<
-  \* 1: two pool parents (1 and 2), child 4 spending an output of each, capacity 2 forces an eviction
-  <<Sub({1}), Sub({2}), Sub({4}), Sub({19}), Sub({12})>>,
-  \* 2: parent 16 (high fee), child 17 (low fee, own bucket), grandchild 18, then 5: eviction
-  <<Sub({16}), Sub({17}), Sub({18}), Sub({5}), Sub({19})>>,
-  \* 3: stem tx 3 depends on pooled tx 1; pool fills; eviction of 1 must not leave 3 dangling in the stempool
-  <<Sub({1}), StemSub({3}), Sub({2}), Sub({8}), Sub({19}), StemSub({12})>>,
-  \* 4: coinbase maturity and lock height one block early / at the boundary (C13 pool clause)
-  <<Sub({9}), Sub({10}), Sub({14}), StemSub({9}), Blk({}), Sub({9}), Sub({10}), Sub({14}), Blk({9}), Sub({14}), StemSub({14}), Sub({14})>>,
-  \* 5: duplicates, aggregated forms of pooled txs, deaggregation, conflicts
-  <<Sub({1}), Sub({1}), Sub({1, 2}), Sub({2}), Sub({1, 3}), Sub({3}), Sub({5}), StemSub({5}), Sub({3, 12}), Blk({1, 2}), Sub({1}), Sub({12})>>,
-  \* 6: reorgs: a confirmed tx returns through the reorg cache; a conflicting spend on the new branch keeps it out
-  <<Sub({1}), Sub({2}), Blk({1}), Rg(1, <<{}, {}>>), Blk({2}), Rg(1, <<{16}, {}>>), Sub({3})>>,
-  \* 7: header-first propagation: the header chain is one ahead of the body chain; maturity and lock height
-  \*    stay relative to the body head
-  <<Hdr({}), Sub({9}), Sub({10}), StemSub({9}), Sub({14}), Sub({2}), Blk({}), Sub({9}), Sub({10}), Hdr({9}), Sub({14}), StemSub({14}),
-    Blk({9}), Sub({14})>>,
-  \* 8: the minimum fee is demanded of the REMAINDER that is admitted after deaggregation: an under-paying tx (6: short
-  \*    by 1; 7: short once shifted; 15: far below) submitted aggregated with a pooled well-paying tx (2, 16) is refused
-  \*    although the aggregate as a whole pays enough; as stem tx (no deaggregation) it conflicts with the pooled part
-  <<Sub({2}), Sub({6}), Sub({2, 6}), Sub({16}), Sub({16, 7}), Sub({2, 15}), StemSub({2, 6}), Sub({15})>>,
-  \* 9: output-commitment collisions with disjoint inputs and kernels, stem first: stem tx 2 must leave the stempool when
-  \*    fluff tx 20 (same output 102) enters the public pool; 2 is then refused both ways; stem chain 16 -> 17: fluff 21
-  \*    (same output 126 as 16) throws 16 out while 17 now spends the 126 of 21; block {20}
-  <<StemSub({2}), Sub({20}), Sub({2}), StemSub({2}), StemSub({16}), StemSub({17}), Sub({21}), Blk({20}), StemSub({2})>>,
-  \* 10: the same collisions, fluff first: stem 2 refused on top of public 20, and as fluff; stem 21, then fluff 16
-  \*    (same output 126) throws it out; a BLOCK holding 21 (no kernel, no input in common with the pool) throws out 16
-  <<Sub({20}), StemSub({2}), Sub({2}), StemSub({21}), Sub({16}), Blk({21}), Sub({17})>>,
-  \* 11: an output created (16), spent (17) and created AGAIN (21) inside the public pool: jointly valid once cut through
-  \*     (a block of the three is accepted), so 21 is admitted - and the set offered for mining must still assemble
-  <<Sub({16}), Sub({17}), Sub({21})>>,
-  \* 12: the same three in a pool over capacity (2): the victim must not be 17, the spender that keeps the two creators
-  \*     of output 126 apart (without it the public pool no longer aggregates)
-  <<Sub({21}), Sub({17}), Sub({16}), Sub({20})>>
->> \o (IF ShortReorg THEN <<
-  \* 13: a heavier but shorter fork lowers the height: the spend of coinbase 5 admitted at maturity is immature again
-  <<Blk({}), Blk({}), Sub({14}), Sub({10}), Rg(2, <<{}>>), Sub({19}), Blk({}), Sub({14})>> >> ELSE <<>>)
 ScriptInit == Init /\ hist = <<>> /\ script \in 1..Len(Scripts)
 ScriptNext ==
   /\ nsteps < Len(Scripts[script])
